@@ -13,7 +13,7 @@ use std::collections::{HashMap, HashSet};
 pub const DEF: PropDef = PropDef {
     id: "C06",
     level: "model_checking",
-    rule: "explicit-state BFS from the empty state over ~56 actions (index writes with numeric / dictionary keys incl. the number-like string key \"1\", nested writes, rock in all forms, roll, copies by assignment / element / function argument and result, scalar coercion, error actions, observation actions) on three variables; states deduplicated on a canonical key = values + sharing partition of array occurrences; every transition (state, action) is replayed as a full program (history + action + observation of all three variables, every index 0..len, every dictionary key, the fixed probe keys k j true false null mysterious and the strings 0 1 2 true null and empty, one level of nesting) on the real interpreter and compared with the reference; depth-bounded, the frontier does not close",
+    rule: "explicit-state BFS from the empty state over ~57 actions (index writes with numeric / dictionary keys incl. the number-like string key \"1\", nested writes, rock in all forms, roll, copies by assignment / element / function argument and result, scalar coercion, error actions, observation actions incl. array operands on either side of minus / over) on three variables; states deduplicated on a canonical key = values + sharing partition of array occurrences; every transition (state, action) is replayed as a full program (history + action + observation of all three variables, every index 0..len, every dictionary key, the fixed probe keys k j true false null mysterious and the strings 0 1 2 true null and empty, one level of nesting) on the real interpreter and compared with the reference; depth-bounded, the frontier does not close",
     assumptions: &[
         "canonicalisation: the future of a copy-on-write implementation depends only on values and on which occurrences may still share storage; sharing is only possible along copy chains without intervening write, which is the partition carried in the key",
         "states with sequences longer than 4 or nesting deeper than 2 are validated but not expanded (caps reported)",
